@@ -242,11 +242,11 @@ def read_template(unit):
                                 kv = parse_kv(t2[2:])
                                 it.loops[k] = {"kv": kv, "lines": []}
                                 cur = it.loops[k]["lines"]
-                            elif d2 == "editre":
-                                m = re.match(r"//@\s*editre\s+<<(.*?)>>\s*=>\s*<<(.*?)>>\s*(.*)$", s2)
+                            elif d2 in ("editre", "editreall"):
+                                m = re.match(r"//@\s*editre(?:all)?\s+<<(.*?)>>\s*=>\s*<<(.*?)>>\s*(.*)$", s2)
                                 if not m:
                                     raise Undecided(f"{rel}:{i+1}: bad editre directive")
-                                it.edits.append({"from": m.group(1), "to": m.group(2), "why": m.group(3), "line": i + 1, "re": True})
+                                it.edits.append({"from": m.group(1), "to": m.group(2), "why": m.group(3), "line": i + 1, "re": True, "all": d2 == "editreall"})
                             elif d2 in ("edit", "editall"):
                                 # //@ edit <<from>> => <<to>> [why: ...]     (editall: every occurrence, at least one)
                                 m = re.match(r"//@\s*edit(all)?\s+<<(.*?)>>\s*=>\s*<<(.*?)>>\s*(.*)$", s2)
@@ -504,10 +504,11 @@ def assemble(unit, canary=False, mutant=None, check_fp=True):
         for e in all_edits:
             if e.get("re"):
                 ms = list(re.finditer(e["from"].encode(), body, re.S))
-                if len(ms) != 1:
+                if (len(ms) < 1) if e.get("all") else (len(ms) != 1):
                     raise Undecided(f"lost-anchor: {it.path}: edit pattern `{e['from']}` matches {len(ms)} times")
-                reps.append((b0 + ms[0].start(), b0 + ms[0].end(), ms[0].expand(e["to"].encode()).decode(), dict(org_base, kind="edit", line=e["line"], tags=[])))
-                A.edits.append({"item": it.id, "from": "regex " + e["from"], "to": e["to"], "why": e["why"], "occurrences": 1})
+                for m1 in ms:
+                    reps.append((b0 + m1.start(), b0 + m1.end(), m1.expand(e["to"].encode()).decode(), dict(org_base, kind="edit", line=e["line"], tags=[])))
+                A.edits.append({"item": it.id, "from": "regex " + e["from"], "to": e["to"], "why": e["why"], "occurrences": len(ms)})
                 continue
             frm = e["from"].encode()
             cnt = body.count(frm)
